@@ -220,7 +220,7 @@ def callables_run(case, kwcase, budget=4):
                 if cb.kind == 'function':
                     got = domain.find_symbol(cb.name)(**args)
                 elif cb.kind == 'bridge':
-                    got = getattr(domain.find_symbol('MYEE'), cb.name)(**args)
+                    got = getattr(domain.find_symbol(cb.cls), cb.name)(**args)
                 elif cb.kind == 'classop':
                     got = getattr(domain.find_class(cb.cls), cb.name)(**args)
                 elif cb.kind == 'instop':
